@@ -21,7 +21,7 @@ SPEC = dict(
           "close one connection locally, close remotely, ClosePeer, Swarm.Close, sleep, dial in over the peer's LIMITED path, close the limited connections) and a seeded schedule with optional "
           "stalls; non-trivial = at least one connection was observed; distinct = distinct (schedule hash, per-connection "
           "callback counts, per-peer event sequences)"),
-    probes=["early-inbound-stream", "swarm-closed-by-actor", "notconnected-event", "limited-connection", "downgrade-connected-to-limited", "upgrade-limited-to-connected", "quic-connection-seen", "direct-connections-over-quic", "direct-connections-over-quic-and-tcp"],
+    probes=["early-inbound-stream", "swarm-closed-by-actor", "notconnected-event", "limited-connection", "downgrade-connected-to-limited", "upgrade-limited-to-connected", "quic-connection-seen", "connection-first-seen-in-the-swarm-table", "direct-connections-over-quic", "direct-connections-over-quic-and-tcp"],
     real=["swarm (conns, emitter, dial, listen, streams) — instrumented", "eventbus — instrumented", "upgrader, tcp dial path, insecure security, "
           "yamux, multistream — instrumented", "pstoremem"],
     stubs=["wire: simnet TCP model"],
